@@ -998,7 +998,7 @@ func main() {
 	case "search":
 		nSup, nMut = 900, 4000
 	}
-	w := lib.NewWriter(args, "C16", "c16", "From KB Require Import Model.C16Cases.", "c16_case", "c16_check", "c16_oracle", 350)
+	w := lib.NewWriter(args, "C16", "c16", "From KB Require Import Model.C16Cases.", "c16_case", "c16_check", "c16_oracle", 170)
 	s, err := newSut(args.Scratch, 10)
 	if err != nil {
 		fmt.Fprintln(os.Stderr, err)
